@@ -18,7 +18,8 @@ inductive Policy where
   deriving Repr, DecidableEq, Inhabited
 
 structure Hook where
-  name : String
+  key : String                 -- identity of the hook object (kind/namespace/name)
+  name : String                -- what `hookByWeight` compares
   weight : Int := 0
   events : List String := []
   policies : List Policy := []
@@ -55,10 +56,10 @@ def effPol (h : Hook) : List Policy := if h.policies.isEmpty then [.before] else
 def hasPol (h : Hook) (p : Policy) : Bool := (effPol h).contains p
 
 /-- `deleteHookByPolicy` -/
-def delIf (h : Hook) (p : Policy) : List HEv := if hasPol h p then [.del h.name] else []
+def delIf (h : Hook) (p : Policy) : List HEv := if hasPol h p then [.del h.key] else []
 
 def exDel (ex : List String) (h : Hook) (p : Policy) : List String :=
-  if hasPol h p then ex.filter (· ≠ h.name) else ex
+  if hasPol h p then ex.filter (· ≠ h.key) else ex
 
 structure Run where
   evs : List HEv
@@ -72,14 +73,14 @@ def runHooks (fails : String → Bool) : List String → List Hook → List Hook
     ⟨done.reverse.flatMap (delIf · .succeeded), done.foldl (fun e h => exDel e h .succeeded) ex, true⟩
   | ex, done, h :: rest =>
     let ex1 := exDel ex h .before
-    let pre := delIf h .before ++ [.create h.name]
-    if ex1.contains h.name then ⟨pre, ex1, false⟩        -- AlreadyExists: the error is returned at once
+    let pre := delIf h .before ++ [.create h.key]
+    if ex1.contains h.key then ⟨pre, ex1, false⟩        -- AlreadyExists: the error is returned at once
     else if fails h.name then
-      ⟨pre ++ [.watch h.name] ++ delIf h .failed ++ done.flatMap (delIf · .succeeded),
-       done.foldl (fun e h => exDel e h .succeeded) (exDel (h.name :: ex1) h .failed), false⟩
+      ⟨pre ++ [.watch h.key] ++ delIf h .failed ++ done.flatMap (delIf · .succeeded),
+       done.foldl (fun e h => exDel e h .succeeded) (exDel (h.key :: ex1) h .failed), false⟩
     else
-      let r := runHooks fails (h.name :: ex1) (done ++ [h]) rest
-      ⟨pre ++ [.watch h.name] ++ r.evs, r.ex, r.ok⟩
+      let r := runHooks fails (h.key :: ex1) (done ++ [h]) rest
+      ⟨pre ++ [.watch h.key] ++ r.evs, r.ex, r.ok⟩
 
 /-- `execHook(rl, event)` -/
 def execHook (fails : String → Bool) (ex : List String) (hooks : List Hook) (ev : String) : Run :=
